@@ -224,7 +224,7 @@ def _source_fields(g, res, F, beta, gamma, fname):
         pf.solvePDE(phi, [pf.linearSourceTerm(pf.CellVariable(g.mesh, beta)),
                           pf.constantSourceTerm(pf.CellVariable(g.mesh, gamma))])
         res["evals"] += 1
-        res["nontrivial"] += int(np.prod(g.dims))
+        res["nontrivial"] += 1
         want = gamma / beta
         got = np.asarray(phi.value)
         if not np.all(np.abs(got - want) <= 64 * EPS * np.abs(want) * max(1.0, float(np.max(np.abs(beta)) / np.min(np.abs(beta))))):
